@@ -33,7 +33,7 @@ RULE = ('[slice model: proved = CPython slice.indices = the declarative Python s
         'nested to depth 3); each configuration is simulated on EVERY value of its input pool '
         '(total width <= 12) and the whole table compared; a case is distinct by (family, parameters) '
         'and non-trivial when it raises or at least one output takes two different values')
-IMPORTS = ('From Coq Require Import ZArith List String.\n'
+IMPORTS = ('From Coq Require Import ZArith List Ascii String.\n'
            'From PyRTL Require Import Front.SliceC14 Front.Mux Front.Struct Front.C14Harness.\n'
            'Import ListNotations. Open Scope Z_scope. Open Scope string_scope.')
 COQ_TARGETS = ['theories/Front/C14Harness.vo']
@@ -422,8 +422,8 @@ def b_bfu(c, P):
 
 def q_bfu(c):
     if c['nv'][0] == 'I':
-        return 't_bfui %s %s %s %s %d %s' % (nats(c['ws']), s_coq(c['w']), oz(c['s']), oz(c['e']), c['nv'][1],
-                                             bl(c['tr']))
+        return 't_bfui %s %s %s %s (%d) %s' % (nats(c['ws']), s_coq(c['w']), oz(c['s']), oz(c['e']), c['nv'][1],
+                                               bl(c['tr']))
     return 't_bfu %s %s %s %s %s %s' % (nats(c['ws']), s_coq(c['w']), oz(c['s']), oz(c['e']), s_coq(c['nv']),
                                         bl(c['tr']))
 
@@ -433,17 +433,30 @@ def o_bfu(c, ws, env):
     idx = py_indices(n, c['s'], c['e'])
     if not idx:
         return ERRU
-    m, v = s_val(ws, env, c['nv'])
-    if c['nv'][0] == 'I':
-        m = minw(v) if v else 0
-    if m > len(idx):
-        if not c['tr']:
-            return ERR
-        v &= (1 << len(idx)) - 1                 # truncating: silently clip the new value
+    v = field_value(ws, env, c['nv'], len(idx), c['tr'])
+    if v is ERR:
+        return ERR
     bits = [(x >> i) & 1 for i in range(n)]
     for j, i in enumerate(idx):
         bits[i] = (v >> j) & 1
     return [sum(bit << j for j, bit in enumerate(bits))]
+
+
+def field_value(ws, env, nv, m, tr):
+    """what a new value writes into a field of m bits: a wire is zero-extended, or clipped when truncating;
+    a Python int of either sign is stored in two's complement AT THE FIELD WIDTH (sign-filled), clipped when
+    truncating; a value that does not fit raises unless truncating"""
+    mask = (1 << m) - 1
+    if nv[0] == 'I':
+        v = nv[1]
+        fits = (v < (1 << m)) if v >= 0 else (v >= -(1 << (m - 1)))
+        if not fits and not tr:
+            return ERR
+        return v & mask
+    wd, v = s_val(ws, env, nv)
+    if wd > m and not tr:
+        return ERR
+    return v & mask
 
 
 # ---- bitfield_update_set
@@ -453,10 +466,14 @@ def b_bfus(c, P):
                                                          ('truncating', c['tr'])])]
 
 
+def vs_coq(nv):
+    return '(VI (%d))' % nv[1] if nv[0] == 'I' else '(VS %s)' % s_coq(nv)
+
+
 def q_bfus(c):
     return 't_bfus %s %s %s %s' % (
         nats(c['ws']), s_coq(c['w']),
-        lst('((%s, %s), %s)' % (oz(s), oz(e), s_coq(nv)) for (s, e, nv) in c['ups']), bl(c['tr']))
+        lst('((%s, %s), %s)' % (oz(s), oz(e), vs_coq(nv)) for (s, e, nv) in c['ups']), bl(c['tr']))
 
 
 def o_bfus(c, ws, env):
@@ -470,11 +487,9 @@ def o_bfus(c, ws, env):
         if taken & set(idx):
             return ERR                           # only non-overlapping fields may be updated together
         taken |= set(idx)
-        m, v = s_val(ws, env, nv)
-        if m > len(idx):
-            if not c['tr']:
-                return ERR
-            v &= (1 << len(idx)) - 1
+        v = field_value(ws, env, nv, len(idx), c['tr'])
+        if v is ERR:
+            return ERR
         for j, i in enumerate(idx):
             bits[i] = (v >> j) & 1
     return [sum(bit << j for j, bit in enumerate(bits))]
@@ -484,10 +499,17 @@ def o_bfus(c, ws, env):
 def b_mbp(c, P):
     m, fields = call(pyrtl.match_bitpattern, form_of(c), [('w', s_build(P, c['w'])), ('bitpattern', c['pat']),
                                                           ('field_map', c.get('fmap'))])
-    return [m] + list(fields)
+    out = [m] + list(fields)                      # positional use: m, (a, b) = match_bitpattern(...)
+    if c.get('byname'):                           # and by (mapped) name, in the order the letters appear
+        fmap = c.get('fmap') or {}
+        out += [getattr(fields, fmap.get(ch, ch)) for ch in names_mbp(c)]
+    return out
 
 
 def q_mbp(c):
+    if c.get('fmap') is not None:
+        return 't_mbp_fm %s %s "%s"%%string %s' % (nats(c['ws']), s_coq(c['w']), c['pat'],
+                                                  lst('"%s"%%char' % k for k in c['fmap']))
     return 't_mbp %s %s "%s"%%string' % (nats(c['ws']), s_coq(c['w']), c['pat'])
 
 
@@ -502,13 +524,17 @@ def o_mbp(c, ws, env):
     for ch in pat:
         if ch not in '01?' and ch not in names:
             names.append(ch)
+    if c.get('fmap') is not None and any(nm not in c['fmap'] for nm in names):
+        return ERR                                        # "all non-1/0/? characters must be present in the map"
     out = [1 if matched else 0]
-    for nm in names:
+    for nm in names:                                      # fields in the order the letters first appear
         v = 0
         for ch, b in zip(pat, msb):
             if ch == nm:
                 v = (v << 1) | b                          # concatenated left to right
         out.append(v)
+    if c.get('byname'):
+        out += out[1:]
     return out
 
 
@@ -779,7 +805,7 @@ def q_cross(c):
         k = len(py_indices(m, c['s'], c['e']))
         return 't_bfu %s %s %s %s (SS 1 0 %d) false' % (w, tgt, oz(c['s']), oz(c['e']), k)
     if op == 'bfus':
-        return 't_bfus %s %s [((Some 0, Some 1), (SS 1 0 1)); ((Some %d, None), (SS 1 1 2))] false' % (w, tgt, m - 1)
+        return 't_bfus %s %s [((Some 0, Some 1), (VS (SS 1 0 1))); ((Some %d, None), (VS (SS 1 1 2)))] false' % (w, tgt, m - 1)
     if op == 'chop':
         return 't_chop %s %s %s' % (w, tgt, nats(c['widths']))
     if op == 'part':
@@ -1199,6 +1225,20 @@ def gen_bfu(rng, tier):
             else:
                 nv = ('I', (1 << max(m, 1)) + rng.randrange(0, 4))
             out.append({'fam': 'bitfield_update', 'ws': ws, 'w': ('W', 0), 's': s, 'e': e, 'nv': nv, 'tr': tr})
+        # Python int new values of every kind (negative, zero, exactly fitting, too wide in either direction)
+        # x truncating True / False, on fields of every width of the wire
+        for m in range(1, n + 1):
+            kinds = sorted({0, 1, -1, -2, -3, (1 << m) - 1, 1 << m, (1 << m) + 1, -(1 << (m - 1)), -(1 << (m - 1)) - 1,
+                            -(1 << m), -(1 << m) - 3, rng.randrange(-(1 << (m + 2)), 1 << (m + 2))})
+            if tier == 'quick' and n >= 4:
+                kinds = rng.sample(kinds, 6)
+            for v in kinds:
+                a = rng.randint(0, n - m)
+                s, e = rng.choice([a, a - n]), rng.choice([a + m, a + m - n] if a + m < n else [a + m, None])
+                for tr in (False, True):
+                    out.append({'fam': 'bitfield_update', 'ws': [n], 'w': ('W', 0), 's': s, 'e': e, 'nv': ('I', v),
+                                'tr': tr, 'int_kind': ('negative' if v < 0 else 'zero' if v == 0 else 'positive')
+                                + (':fits' if field_value(None, None, ('I', v), m, False) is not ERR else ':too-wide')})
     return out
 
 
@@ -1228,7 +1268,12 @@ def gen_bfus(rng, tier):
                 m = len(py_indices(n, s, e))
                 take = min(max(m, 1), n - used) if used < n else 1
                 lo = used if used + take <= n else 0
-                ups.append((s, e, ('S', 1, lo, lo + take)))
+                if rng.random() < 0.3:          # a Python int of any kind as the new value
+                    mm = max(m, 1)
+                    ups.append((s, e, ('I', rng.choice([0, -1, -2, (1 << mm) - 1, -(1 << (mm - 1)), 1 << mm,
+                                                        -(1 << mm) - 1, rng.randrange(-(2 << mm), 2 << mm)]))))
+                else:
+                    ups.append((s, e, ('S', 1, lo, lo + take)))
                 used = (used + take) % n
             out.append({'fam': 'bitfield_update_set', 'ws': ws, 'w': ('W', 0), 'ups': ups,
                         'tr': rng.random() < 0.3})
@@ -1304,6 +1349,29 @@ def gen_mbp(rng, tier):
             out.append({'fam': 'match_bitpattern', 'ws': [1], 'w': ('W', 0), 'pat': p})
         else:
             out.append({'fam': 'match_bitpattern', 'ws': [n], 'w': ('W', 0), 'pat': p})
+    # field_map: every order of the map's keys (dict order must not matter), extra keys, a missing key;
+    # the fields read positionally AND by mapped name
+    longnames = {'a': 'foo', 'b': 'bar', 'c': 'baz', 'd': 'qux'}
+    fpats = ['ab', 'ba', 'a1b', 'b0a?', 'aab', 'abab', 'ab_ba', 'abc', 'cab', 'b?ca', 'ca1b', 'abcabc', 'a', 'a0a']
+    for _ in range(6 if tier == 'quick' else 60):
+        L = rng.randint(2, 6)
+        fpats.append(''.join(rng.choice('abc01?') for _ in range(L)))
+    for p in fpats:
+        n = len([ch for ch in p if ch not in '_ '])
+        letters = names_mbp({'pat': p})
+        if not letters:
+            continue
+        for perm in itertools.permutations(letters):
+            keys = list(perm)
+            out.append({'fam': 'match_bitpattern', 'ws': [n], 'w': ('W', 0), 'pat': p, 'byname': True,
+                        'fmap': {k: longnames[k] for k in keys}, 'form': 'pos'})
+        extra = ['d'] + list(reversed(letters))
+        out.append({'fam': 'match_bitpattern', 'ws': [n], 'w': ('W', 0), 'pat': p, 'byname': True,
+                    'fmap': {k: longnames[k] for k in extra}, 'form': 'kw'})
+        out.append({'fam': 'match_bitpattern', 'ws': [n], 'w': ('W', 0), 'pat': p, 'byname': True})
+        if len(letters) >= 2:
+            out.append({'fam': 'match_bitpattern', 'ws': [n], 'w': ('W', 0), 'pat': p,
+                        'fmap': {k: longnames[k] for k in letters[1:]}})
     for p in ['01', 'a?b', '1a0a', 'ab_ab']:      # length mismatch, field_map
         n = len([ch for ch in p if ch not in '_ '])
         out.append({'fam': 'match_bitpattern', 'ws': [n + 1], 'w': ('W', 0), 'pat': p})
@@ -1584,6 +1652,11 @@ def run_configs(ctx, cfgs):
         ctx.count('calling_form', '%s:%s' % (fam, form_of(c)))
         if 'depth' in c:
             ctx.count('schema_depth', c['depth'])
+        if 'int_kind' in c:
+            ctx.count('bitfield_int_newvalue', '%s:truncating=%s' % (c['int_kind'], c['tr']))
+        if c.get('fmap') is not None:
+            ctx.count('match_bitpattern_field_map', 'keys-in-pattern-order' if list(c['fmap']) == names_mbp(c)
+                      else 'keys-in-another-order')
         if 'driver_delta' in c:
             for d in c['driver_delta']:
                 ctx.count('concat_driver_width_minus_field_width', d)
@@ -1601,6 +1674,9 @@ def run_configs(ctx, cfgs):
             mnames, m = m[0], m[1]
             if m is not None and [chr(x) for x in mnames] != names_mbp(c):
                 ctx.model_mismatch('match_bitpattern field names differ', dict(rep, model=mnames))
+        if c.get('byname') and r['err'] is None:       # the by-name copies are checked by the oracle; model = positional
+            k = 1 + len(names_mbp(c))
+            r = dict(r, widths=r['widths'][:k], tab=[row[:k] for row in r['tab']])
         if fam in PAIRWISE and r['err'] is None:      # compare the results on the wrapped object only
             k = r['split']
             r = dict(r, widths=r['widths'][:k], tab=[row[:k] for row in r['tab']])
